@@ -196,7 +196,9 @@ fn model(stages: &[Vec<Srv>; 3], o: &ConnOpts) -> Model {
                 return md;
             }
             Srv::Reset => {
-                fail(&mut md, vec!["InvalidCredentials".into(), "IoErrorReadingSocket".into(), "IoErrorWritingSocket".into()]);
+                // a reset is a drop too; only a reset that already fails the *write* of StartOk keeps the
+                // write error (StartOk never went out, the premise does not hold)
+                fail(&mut md, vec!["InvalidCredentials".into(), "IoErrorWritingSocket".into()]);
                 return md;
             }
             Srv::Silence => {
